@@ -592,6 +592,12 @@ func forFromZero(x *ast.ForStmt) bool {
 			}
 		}
 	}
+	// a named constant / constant expression of value 0 (foldInfo is the type information of the tree being read)
+	if !zero && foldInfo != nil {
+		if tv, ok := foldInfo.Types[as.Rhs[0]]; ok && tv.Value != nil && tv.Value.ExactString() == "0" {
+			zero = true
+		}
+	}
 	inc, ok := x.Post.(*ast.IncDecStmt)
 	return zero && ok && inc.Tok == token.INC
 }
